@@ -22,7 +22,7 @@ func (c *Conversation) maybeHeartbeat(plain MessagePlaintext, toSend messageWith
 }
 
 func (c *Conversation) potentialHeartbeat(plain MessagePlaintext) (toSend messageWithHeader, err error) {
-	if plain == nil {
+	if plain == nil || c.msgState != encrypted {
 		return
 	}
 
